@@ -1,17 +1,18 @@
 #!/bin/bash
 # Re-runs every seeded breaking change in /verif/seeded against its check (scratch worktree under /tmp,
 # removed afterwards). Usage: tools/seeded_run.sh [ids…]   Output: one line per change.
-cd /verif
+ROOT=$(cd "$(dirname "$0")/.." && pwd)   # works from a frozen copy of /verif too
+cd $ROOT
 ids="$@"; [ -z "$ids" ] && ids=$(ls seeded)
 for id in $ids; do
   prop=${id%%-*}
   wt=/tmp/seedwt-$id
   git -C /repo worktree remove --force $wt >/dev/null 2>&1
   git -C /repo worktree add --detach $wt HEAD >/dev/null 2>&1 || { echo "$id worktree-failed"; continue; }
-  if ! git -C $wt apply /verif/seeded/$id/patch.diff 2>/dev/null; then echo "$id patch-does-not-apply"; git -C /repo worktree remove --force $wt; continue; fi
-  out=$(VERIF_REPO=$wt VERIF_SCRATCH_OUT=/tmp/seed-out ./check $prop --tier quick 2>&1 | grep -m1 VIOLATION)
+  if ! git -C $wt apply $ROOT/seeded/$id/patch.diff 2>/dev/null; then echo "$id patch-does-not-apply"; git -C /repo worktree remove --force $wt; continue; fi
+  out=$(VERIF_REPO=$wt VERIF_SCRATCH_OUT=${SEED_OUT:-/tmp/seed-out} ./check $prop --tier quick 2>&1 | grep -m1 VIOLATION)
   if [ -n "$out" ]; then echo "$id caught: ${out:0:90}"; else echo "$id MISSED"; fi
   h=$(python3 -c "import hashlib,sys;print(hashlib.sha1(sys.argv[1].encode()).hexdigest()[:8])" $wt)
-  rm -rf /verif/harness/target-$h /verif/harness/m-$h
+  rm -rf $ROOT/harness/target-$h $ROOT/harness/m-$h
   git -C /repo worktree remove --force $wt >/dev/null 2>&1
 done
